@@ -19,7 +19,7 @@ from vf.worker import exc_sig
 LEVEL = "exploration"
 RULE = ("vf.gencache models (parameter-dependent attributes, aliases, delays, string parameters, loops, functions) "
         "x 7 option sets; pickle cache for every case, code generation (4 shared objects, fresh subprocess per "
-        "loader) for a subset; distinct = digest of (model text, options, loader); non-trivial = the model has a "
+        "loader) for a subset, followed by a second option set in the same folder; distinct = digest of (model text, options, loader); non-trivial = the model has a "
         "parameter-dependent attribute, an alias equation, a delay or a string parameter")
 ASSUMPTIONS = ["cache=True implies expand_mx=True, so the fresh compile uses expand_mx=True as well",
                "evaluation points are deterministic functions of the symbol names (Booleans in {0,1})"]
